@@ -2061,6 +2061,9 @@ func (t *bodyTr) forStmt(x *ast.ForStmt, sc bscope, ctx bctx, ind string, rest f
 	var locals []*benv
 	seen := map[string]bool{}
 	for e := sc.env; e != nil; e = e.parent {
+		if _, inlined := t.inl[e.name]; inlined {
+			continue // substituted at its uses: there is no Lean binding to pass on
+		}
 		if !seen[e.name] && !inVars[leanLocal(e.name)] {
 			seen[e.name] = true
 			locals = append(locals, e)
